@@ -1,5 +1,7 @@
 #include "core_shim.h"
 #include "interpreter.h"
+#include <cstdlib>
+#include <new>
 
 namespace vf {
 
@@ -9,11 +11,17 @@ struct InterpHolder {
         : interp(ct, regs, mem) {}
 };
 
-BareCore::BareCore() : mem(shared_memory, miu), regs() {
+BareCore::BareCore()
+    : mem_storage(std::calloc(1, sizeof(Teakra::MemoryInterface))),
+      mem(*new (mem_storage) Teakra::MemoryInterface(shared_memory, miu)), regs() {
     regs = Teakra::RegisterState();
     interp = std::make_unique<InterpHolder>(core_timing, regs, mem);
 }
-BareCore::~BareCore() = default;
+BareCore::~BareCore() {
+    interp.reset();
+    mem.~MemoryInterface();
+    std::free(mem_storage);
+}
 
 RunResult BareCore::Run(std::uint64_t cycles) {
     return Classify([&] { interp->interp.Run(cycles); });
